@@ -131,15 +131,10 @@ def s2_handler(ctx):
 
 
 def ask_equals_bid_by_construction(ctx):
-    """C06-S5 fact: in _convert_bar_frame_into_bid_ask_df the 'Bid' and 'Ask' columns are both assigned the same expression."""
-    fn = ctx.fn('CSVDailyBarDataSource._convert_bar_frame_into_bid_ask_df')
-    vals = {}
-    for n in ast.walk(fn.node):
-        if isinstance(n, ast.Assign) and len(n.targets) == 1 and isinstance(n.targets[0], ast.Subscript):
-            k = n.targets[0].slice
-            if isinstance(k, ast.Constant) and k.value in ('Bid', 'Ask'):
-                vals.setdefault(k.value, []).append(ast.dump(n.value))
-    return bool(vals.get('Bid')) and vals.get('Bid') == vals.get('Ask')
+    """C06-S5 fact: on every path of the converter the 'Bid' and 'Ask' columns are the same expression."""
+    from .c06 import bid_ask_columns
+    cols = bid_ask_columns(ctx)
+    return bool(cols) and all(set(c) == {'Bid', 'Ask'} and c['Bid'] == c['Ask'] for c in cols)
 
 
 def s4_fee_models(ctx):
